@@ -111,6 +111,7 @@ def run(module, cfg, dirs, *, workers=1, env=None, timeout=900, coverage=False,
             with open(os.path.join(scratch, name), "w") as f:
                 f.write(text)
         cmd = ["java", "-XX:+UseParallelGC", "-Xss" + xss, "-Xmx" + heap,
+               "-Djava.io.tmpdir=" + scratch,
                "-cp", JAR_CP, "tlc2.TLC", "-workers", str(workers),
                "-metadir", os.path.join(scratch, "meta"), "-noGenerateSpecTE"]
         if not deadlock:
